@@ -231,7 +231,7 @@ func inputDetail(b []byte) map[string]any {
 }
 
 func checkC09(c *core.Ctx) {
-	c.Rule("(1) byte fuzz: valid chord texts, instance documents and dictionaries mutated (truncation, bit flips, insert/delete/duplicate/splice, invalid UTF-8, NUL, CRLF, BOM, YAML anchors/aliases/merge keys/tags, huge numbers, nesting) and over-long inputs up to 64 KiB, fed to every reading command through stdin, `-` and FILE; (2) flag fuzz: every flag of every command with boundary and nonsense values, and every data-producing command with an output target that refuses every byte (-o /dev/full); (3) the catalogue of musically meaningless inputs through every channel that can carry them (text metadata -> text conv -> write, YAML field -> write, flag); " +
+	c.Rule("(1) byte fuzz: valid chord texts, instance documents and dictionaries mutated (truncation, bit flips, insert/delete/duplicate/splice, invalid UTF-8, NUL, CRLF, BOM, YAML anchors/aliases/merge keys/tags, huge numbers, nesting) and over-long inputs up to 64 KiB, fed to every reading command through stdin, `-` and FILE; (2) flag fuzz: every flag of every command with boundary and nonsense values, and every data-producing command with an output target that refuses every byte (-o /dev/full); (3) the catalogue of musically meaningless inputs through every channel that can carry them (text metadata -> text conv -> write, also behind 1500-4000 valid chords; YAML field -> write; flag), inconsistent dictionaries of every kind incl. cycles through entries reachable by display only; " +
 		"judged: no signal/panic/fatal error, CPU time below the limit, failure <=> non-zero exit with a diagnostic on stderr and nothing on stdout, catalogue items never end in a file that decodes as SMF; a tenth of the fuzz runs use the race-detector build; " +
 		"non-trivial = distinct (command, input class, outcome) with an input that is not a seed; distinct by (target, mutation, outcome, input hash)")
 	c.Assume("CPU-time limit 10 s per child for inputs <= 64 KiB (race build: 60 s)", "smfdec decides whether bytes are a MIDI file", "both success and refusal are acceptable for arbitrary bytes; only the form of the outcome is judged")
